@@ -2,13 +2,43 @@ package interp
 
 // Happens-before data-race monitor over interpreter heap cells.
 
-import "fmt"
+import (
+	"fmt"
+	"go/token"
+
+	"golang.org/x/tools/go/ssa"
+)
 
 type epoch struct {
 	gid     int
 	t       int
-	site    string
+	fr      *frame // accessing frame (site string computed only when a race is reported)
+	pos     token.Pos
+	fn      *ssa.Function
 	harness bool // the accessing function itself is harness code
+}
+
+// siteAt renders the innermost repository function of an access lazily.
+func (ps *pathState) epochSite(e epoch) string {
+	if e.fn == nil {
+		return "?"
+	}
+	return fmt.Sprintf("%s (%s)", e.fn.String(), shortPos(ps.eng.prog.Fset, e.pos))
+}
+
+// accessSite finds the innermost non-harness repository frame (cheap: no formatting).
+func (ps *pathState) accessSite(fr *frame) (*ssa.Function, token.Pos) {
+	for f := fr; f != nil; f = f.caller {
+		if !f.ext && f.fn.Blocks != nil && ps.eng.isRepoFn(f.fn) && !ps.eng.isHarnessFn(f.fn) {
+			return f.fn, f.pos
+		}
+	}
+	for f := fr; f != nil; f = f.caller {
+		if !f.ext && f.fn.Blocks != nil && ps.eng.isRepoFn(f.fn) {
+			return f.fn, f.pos
+		}
+	}
+	return fr.fn, fr.pos
 }
 
 type shadow struct {
@@ -59,7 +89,8 @@ func (ps *pathState) onRead(fr *frame, addr *value) {
 			}
 		}
 		if !found {
-			sh.reads = append(sh.reads, epoch{g.id, g.clk[g.id], ps.siteOf(fr), ps.eng.isHarnessFn(fr.fn)})
+			fn, pos := ps.accessSite(fr)
+			sh.reads = append(sh.reads, epoch{gid: g.id, t: g.clk[g.id], pos: pos, fn: fn, harness: ps.eng.isHarnessFn(fr.fn)})
 		}
 	}
 }
@@ -88,7 +119,8 @@ func (ps *pathState) writeCell(fr *frame, g *goroutine, cell *value) {
 			ps.reportRace(fr, "write", r, "read")
 		}
 	}
-	sh.w = epoch{g.id, g.clk[g.id], ps.siteOf(fr), ps.eng.isHarnessFn(fr.fn)}
+	wfn, wpos := ps.accessSite(fr)
+	sh.w = epoch{gid: g.id, t: g.clk[g.id], pos: wpos, fn: wfn, harness: ps.eng.isHarnessFn(fr.fn)}
 	sh.hasW = true
 	sh.reads = sh.reads[:0]
 }
@@ -107,14 +139,15 @@ func (ps *pathState) reportRace(fr *frame, kind string, prev epoch, prevKind str
 	if !ps.eng.isRepoFn(fr.fn) {
 		return
 	}
-	if prev.harness && ps.eng.isHarnessFn(fr.fn) {
+	if prev.harness && ps.eng.isHarnessFn(fr.fn) && !ps.eng.litmus {
 		// both accesses are in harness code: not a property of the repository
 		ps.harnessRaces++
 		return
 	}
 	site := ps.siteOf(fr)
-	label := fmt.Sprintf("data race: %s at %s vs earlier %s at %s", kind, site, prevKind, prev.site)
-	key := "race|" + site + "|" + prev.site
+	prevSite := ps.epochSite(prev)
+	label := fmt.Sprintf("data race: %s at %s vs earlier %s at %s", kind, site, prevKind, prevSite)
+	key := "race|" + site + "|" + prevSite
 	if ps.raceSeen[key] {
 		return
 	}
